@@ -267,6 +267,7 @@ def _not_printable(g):
 
 UNKNOWN_KINDS = []
 UNREAD_KEYS = set()
+NESTED = {}
 
 
 def kind_tables(P, R):
@@ -290,41 +291,78 @@ def kind_tables(P, R):
         pv = Prov(fn)
 
         def owner_block(i):
-            # nearest enclosing block of the impl itself (a block of an inlined helper belongs to the block of its call site)
+            # nearest enclosing scope of the impl itself — a block, or the expression that is the body of a match arm (a block of an
+            # inlined helper belongs to the scope of its call site)
             p = acc[i][1]
             while p >= 0:
-                if acc[p][0].get("k") == "Block" and id(acc[p][0]) not in inl_ids:
-                    return p
+                n = acc[p][0]
+                if id(n) not in inl_ids:
+                    if n.get("k") == "Block":
+                        return p
+                    pp = acc[p][1]
+                    if pp >= 0 and acc[pp][0].get("k") == "Arm" and acc[pp][0].get("body") is n:
+                        return p
                 p = acc[p][1]
             return -1
-        kind_blocks = {}
+
+        def json_object(i, recv):
+            """identity of the JSON object a writer call at node i writes into: the writer local it is called on (a helper's writer
+            parameter standing for the argument at its call site), or the `.object(..)` expression that opens a nested object"""
+            e = recv
+            while True:
+                e = strip(e)
+                while e is not None and e.get("k") in ("AddrOf", "Unary", "Cast"):
+                    e = strip(e.get("e"))
+                if e is None:
+                    return None
+                if e.get("k") != "Path" or "local" not in e:
+                    return ("node", id(e))
+                p, site, pos = acc[i][1], None, None
+                while p >= 0:
+                    c = acc[p][0]
+                    if "inl" in c:
+                        pos = [k for k, pp in enumerate(c["inl"]["params"]) if pp.get("k") == "Binding" and pp.get("local") == e["local"]]
+                        if pos:
+                            site = p
+                            break
+                    p = acc[p][1]
+                if site is None:
+                    return ("local", e["local"])
+                c = acc[site][0]
+                args = ([c["recv"]] if c.get("k") == "MethodCall" else []) + c["args"]
+                if pos[0] >= len(args):
+                    return ("local", e["local"])
+                i, e = site, args[pos[0]]
+        kind_blocks = {}        # (scope, JSON object) -> (kind, call)
         for i, n in kind_calls:
             kind = literal_at(acc, i, n["args"][1]) if len(n["args"]) > 1 else None
             if kind is None:
                 UNKNOWN_KINDS.append(fn.path)
                 R.undecided("R12-b", "kind@%s" % short(fn.path), "%s writes a `kind` that is not a literal; its table is not decided" % fn.path, loc=fn.loc())
                 continue
-            kind_blocks[owner_block(i)] = (kind, n)
+            kind_blocks[(owner_block(i), json_object(i, n["recv"]))] = (kind, n)
 
-        def owning_kind_block(i):
+        def owning_kind_block(i, obj):
             p = acc[i][1]
             while p >= 0:
-                if p in kind_blocks:
-                    return p
+                if (p, obj) in kind_blocks:
+                    return (p, obj)
                 p = acc[p][1]
-            return -1
+            return None
         tables = {b: {} for b in kind_blocks}
         for i, n, key in kc:
             if key == "kind":
                 continue
-            b = owning_kind_block(i)
+            b = owning_kind_block(i, json_object(i, n["recv"]))
             if b in tables:
                 if key is None:
                     UNREAD_KEYS.add((fn.path, kind_blocks[b][0]))       # a key that is not a literal: the table of this node is incomplete
                 else:
                     tables[b].setdefault(key, []).append(n)
         for b, (kind, kn) in kind_blocks.items():
-            out.append((fn, kind, tables[b], acc[b][0]))
+            # a nested object opened for a helper (`helper(x, &mut writer.object("key"))`) is a node written on behalf of another type
+            NESTED[(id(fn), id(acc[b[0]][0]), kind)] = b[1] is not None and b[1][0] == "node"
+            out.append((fn, kind, tables[b], acc[b[0]][0]))
     return out
 
 
@@ -436,6 +474,10 @@ def r12b(P, R):
                 via = "block"
             else:
                 via = "call"
+            if not ok and NESTED.get((id(fn), id(block), kind)):
+                n -= 1
+                continue        # a node of this kind written for a value of another type (no `src[0]` value exists here): the
+                                # parent's own key -> field check covers where the data comes from
             R.check("R12-b", "src:%s.%s" % (kind, key), ok,
                     "`%s` is computed from %s.%s (%s)" % (key, src[0], src[1], via),
                     "JSON key `%s` of `%s` is not computed from %s.%s anywhere in its block" % (key, kind, src[0], src[1]),
